@@ -22,7 +22,7 @@ ASSUMPTIONS = [
 ]
 MANIFEST = {'text': 'proof (over-approximating backward data provenance) that no path component of an extracted file comes from an unsanitised member name: sinks are fed by enclosed_name()/file_stem()-derived '
                     'rename values joined onto a TempDir path; the set of fs-mutating call sites in the archive module equals the reviewed set.'
-                    ' Added: the volume chain never signals end-of-data with volumes remaining, and repositions a volume reader relatively only when its position is known (rel_pos != 0). Added: a binary search in the archive module compares by the key type the sequence was sorted by (String order is not Path order). Added: extract_to_dir writes a member only after the membership test matched it, or when no filter was requested (an emptied name list is not \'no filter\'). Added: the position cache of the shared archive reader is re-based after every absolute seek (a genuine defect found and repaired, 1866d85); inside the zip member loop a name is reported as extracted only behind the copy of the member bytes in the same iteration.'}
+                    ' Added: the volume chain never signals end-of-data with volumes remaining, and repositions a volume reader relatively only when its position is known (rel_pos != 0). Added: a binary search in the archive module compares by the key type the sequence was sorted by (String order is not Path order). Added: extract_to_dir writes a member only after the membership test matched it, or when no filter was requested (an emptied name list is not \'no filter\'). Added: the position cache of the shared archive reader is re-based after every absolute seek (a genuine defect found and repaired, 1866d85); inside the zip member loop a name is reported as extracted only behind the copy of the member bytes in the same iteration. Added: the key of the temp-dir list is the canonical path (or given name) without case folding / trimming.'}
 
 SINK = re.compile(r'^std::fs::(create_dir_all|create_dir|File::create|File::create_new|write|rename|copy|remove_file|remove_dir_all|remove_dir|hard_link|OpenOptions::open|set_permissions)$|^std::os::unix::fs::symlink$')
 FORBIDDEN = re.compile(r'ZipFile(::<[^>]*>|<[^>]*>)?::(name|mangled_name|name_raw)$')
@@ -156,10 +156,52 @@ def run(F, chk):
     check_lookup_order(F, X8)
     X9 = chk.rule('X9', 'extract_to_dir writes a member only on a path that matched it against the requested names, or where the caller requested no filter at all (None) - an emptied list is not "no filter"')
     check_member_written_only_if_selected(F, X9)
+    X12 = chk.rule('X12', 'one temp dir per archive: the key under which extract_archives remembers the temp dir of an archive is its canonical path (or the given name) without case folding or other lossy normalisation (two archives are the same only if their paths are)')
+    check_temp_dir_key(F, X12)
     X11 = chk.rule('X11', 'zip extraction: inside the member loop a name is reported as extracted only behind the copy of that member\'s bytes into the freshly created file in the same iteration (an existing file of the same name / size is not the member)')
     check_reported_means_copied(F, X11)
     X10 = chk.rule('X10', 'shared archive reader: a cached position of the inner stream is re-based (pos = target) after every absolute seek of that stream before it is advanced relatively (pos += n) - otherwise a later read at the stale value skips its seek and returns bytes from elsewhere')
     check_position_cache(F, X10)
+
+
+# ---------------------------------------------------------------------------------------------
+# X12: identity of archives
+
+LOSSY_TEXT = re.compile(r'::(to_lowercase|to_uppercase|to_ascii_lowercase|to_ascii_uppercase|make_ascii_lowercase|make_ascii_uppercase|eq_ignore_ascii_case|trim|trim_start|trim_end|trim_matches|trim_start_matches|trim_end_matches|replace|replacen|to_string_lossy_lowercase)$')
+
+
+def check_temp_dir_key(F, X12):
+    """"one temp dir per archive": extract_archives looks an archive up in the list of temp dirs by a text key.  Two different
+    archives must never share a key, else the second one finds "its" members already extracted and reports the first one's
+    files.  On the way from the archive path to the key (extract_archives and the private functions it calls with a path) no
+    case folding / trimming / replacing may happen."""
+    b = F.get('adlt::utils::unzip::extract_archives')
+    if b is None:
+        X12.violation(('anchor-lost', 'extract_archives'), 'extract_archives not found')
+        return
+    cone = [b] + list(F.closures_of(b.path))
+    for blk in b.calls():
+        H = F.get(blk.term.callee.resolved) if blk.term.callee.resolved else F.get(blk.term.callee.path)
+        if H is not None and H.kind != 'closure' and H.crate == 'lib' and H.path.startswith('adlt::utils::unzip::') and H.ret_type().startswith('std::string::String') and H not in cone:
+            cone.append(H)
+            cone += list(F.closures_of(H.path))
+    n = 0
+    canon = 0
+    for x in cone:
+        X12.fn(x.path)
+        for blk in x.calls():
+            p = blk.term.callee.path
+            if p.endswith('Path::canonicalize') or p.endswith('fs::canonicalize'):
+                canon += 1
+            if LOSSY_TEXT.search(p):
+                n += 1
+                X12.sites += 1
+                X12.violation(('temp-dir-key-normalised', x.closure_of or x.path, p.split('::')[-1]), '%s applies %s at %s on the way to the key of the temp-dir list: archives whose paths differ only in what is folded away share one temp dir, the second one reports the first one\'s files' %
+                              (x.path, p.split('::')[-1], x.loc(blk.term.sp)), where=x.loc(blk.term.sp))
+    X12.sites += canon
+    X12.floor('canonicalize calls on the way to the temp-dir key', canon, 1)
+    if n == 0:
+        X12.ok(sample={'key': 'canonical path or given name, verbatim', 'functions': [x.path for x in cone][:6]})
 
 
 # ---------------------------------------------------------------------------------------------
